@@ -27,6 +27,8 @@ pub const EXIT_DEADLOCK: i32 = 99;
 pub const EXIT_LIVELOCK: i32 = 98;
 pub const EXIT_NOEXIT_AFTER_SIGNAL: i32 = 96;
 pub const EXIT_HARNESS: i32 = 95;
+/// a planned SIGINT arrived while no handler was installed: the default action ended the process
+pub const EXIT_SIGINT_DEFAULT_ACTION: i32 = 97;
 
 extern "C" {
     fn _exit(code: i32) -> !;
@@ -405,6 +407,17 @@ impl Sched {
     pub(crate) fn pick_next(&mut self) {
         if self.exited {
             return;
+        }
+        if self.sig_next < self.plan.signals.len()
+            && self.steps >= self.plan.signals[self.sig_next]
+            && matches!(self.threads[TID_SIG].state, TState::Absent)
+        {
+            // SIGINT while no handler is installed: the default action ends the process here and now -- no
+            // destructor, no clean-up code runs (as when Ctrl-C is typed before, or without, handler registration)
+            let line = format!("G {} signal_default_action", self.steps);
+            self.tr(&line);
+            self.flush();
+            unsafe { _exit(EXIT_SIGINT_DEFAULT_ACTION) }
         }
         let mut enabled: Vec<usize> = Vec::with_capacity(self.threads.len());
         let mut blocked: Vec<String> = Vec::new();
